@@ -88,6 +88,8 @@ package kgo
 //@   prop C18
 //@   ensures [running-length-is-the-sum] b.wireLength == old(b.wireLength) + (int32(uvlen32(zz32(nums.lengthField))) + nums.lengthField)
 //@   ensures [appended-last] len(b.records) == old(len(b.records)) + 1 && b.records[len(b.records)-1] == pr
+//@   ensures [max-timestamp-delta-is-the-maximum] old(len(b.records)) > 0 ==> b.maxTimestampDelta == ite(nums.tsDelta > old(b.maxTimestampDelta), nums.tsDelta, old(b.maxTimestampDelta))
+//@   ensures [first-record-leaves-the-delta] old(len(b.records)) == 0 ==> b.maxTimestampDelta == old(b.maxTimestampDelta)
 
 // maxRecordBatchBytesForTopic: never above the configured per-topic limit, and never above what is left of
 // maxBrokerWriteBytes after the request overhead for one topic with one partition.
